@@ -156,8 +156,18 @@ Fixpoint libs_loop (bad : N -> option exn) (loc : nat) (libs : list lib) (root :
 Definition scenes_of (m : model) : list obj :=
   flat_map larr (filter (fun l => N.eqb (ltag l) a_library_visual_scenes) (mlibs m)).
 
+(* a missing <scene> is created in front of the root's first <extra> (at the end if there is none):
+     loc = len(root); for i, child in enumerate(root): if child.tag == extra: loc = i; break *)
+Fixpoint scene_loc (root : list rchild) : nat :=
+  match root with
+  | [] => 0
+  | c :: r => if has_tag a_extra c then 0 else S (scene_loc r)
+  end.
 Definition ensure_scene (root : list rchild) : list rchild :=
-  match find_tag a_scene root with Some _ => root | None => root ++ [new_el a_scene] end.
+  match find_tag a_scene root with
+  | Some _ => root
+  | None => insert_at (scene_loc root) (new_el a_scene) root
+  end.
 
 (* Collada.save, attempted in fault context fc *)
 Definition save_in (fc : faults) (s : state) : state * outcome unit :=
